@@ -8,6 +8,7 @@ package sim
 
 import (
 	"context"
+	"errors"
 	"fmt"
 	"net/http"
 	"sort"
@@ -80,6 +81,7 @@ type Event struct {
 type Outcome struct {
 	Kind     OutcomeKind
 	ExitCode int16
+	ErrText  string // error text of a failing task (default "exit status N")
 }
 
 type OutcomeKind int
@@ -237,6 +239,9 @@ func (r *SimRunner) Run(t *task.Task) error {
 	case OutFail:
 		t.ExitCode = out.ExitCode
 		err := fmt.Errorf("exit status %d", out.ExitCode)
+		if out.ErrText != "" {
+			err = errors.New(out.ErrText)
+		}
 		if t.AllowFailure {
 			r.notify(t)
 			t.End = time.Now()
